@@ -74,6 +74,13 @@ func buildOnePassDFA(re *syntax.Regexp, nfaEngine *nfa.NFA, config Config) *onep
 		return nil
 	}
 
+	// The one-pass DFA follows a single path by byte lookup: it has no notion of
+	// lazy-versus-greedy priority and does not evaluate \b, \B or line anchors
+	// in the middle of the pattern, so its captures would differ from the NFA's.
+	if hasNonGreedyQuantifier(re) || hasWordBoundary(re) || hasInnerAnchor(re) {
+		return nil
+	}
+
 	// Compile anchored NFA for OnePass (requires Anchored: true)
 	anchoredCompiler := nfa.NewCompiler(nfa.CompilerConfig{
 		UTF8:              true,
@@ -93,6 +100,40 @@ func buildOnePassDFA(re *syntax.Regexp, nfaEngine *nfa.NFA, config Config) *onep
 	}
 
 	return onepassDFA
+}
+
+// hasInnerAnchor reports whether an anchor occurs anywhere but a start anchor
+// as the first, or an end anchor as the last, element of the top-level
+// concatenation.
+func hasInnerAnchor(re *syntax.Regexp) bool {
+	for re.Op == syntax.OpCapture && len(re.Sub) == 1 {
+		re = re.Sub[0]
+	}
+	if re.Op != syntax.OpConcat {
+		switch re.Op {
+		case syntax.OpBeginLine, syntax.OpEndLine, syntax.OpBeginText, syntax.OpEndText:
+			return false
+		}
+		return containsAnchor(re)
+	}
+	for i, sub := range re.Sub {
+		switch sub.Op {
+		case syntax.OpBeginLine, syntax.OpBeginText:
+			if i == 0 {
+				continue
+			}
+			return true
+		case syntax.OpEndLine, syntax.OpEndText:
+			if i == len(re.Sub)-1 && i > 0 {
+				continue
+			}
+			return true
+		}
+		if containsAnchor(sub) {
+			return true
+		}
+	}
+	return false
 }
 
 // strategyEngines holds all strategy-specific engines built by buildStrategyEngines.
